@@ -181,6 +181,7 @@ def run(ctx: Context) -> None:
     report_issues(ctx, an, "C14", seen)
     ctx.require_floor("typing obligations", n, 25)
     clause_c(ctx, idx, cls)
+    clause_d(ctx, idx)
     ctx.assume("xxpp_to_xpxp_indices / xpxp_to_xxpp_indices are permutations (degree- and dimension-preserving)")
     ctx.assume("the hafnian / torontonian / Williamson kernels are functions of dimensionless inputs (their arguments are required to have degree 0)")
 
@@ -237,3 +238,40 @@ def clause_c(ctx: Context, idx, cls) -> None:
                                   + ": it falls back to a fresh default Config (hbar = 2), so for a parent state with another hbar the derived "
                                   "state's moments are stored and read with the wrong normalisation", norm(c)[:100])
     ctx.require_floor("GaussianState constructions inside the library", n_sites, 2)
+
+
+# ================================================================================================ (d)
+
+
+def clause_d(ctx: Context, idx) -> None:
+    """"The xpxp and xxpp representations describe the same state": ordering tags (pqstatic/basis.py)."""
+    from ..basis import BasisTyping
+    ctx.rule("C14d", "quadrature quantities keep a consistent ordering: the xxpp->xpxp / xpxp->xxpp index maps are applied to quantities of the source "
+                     "ordering, sums and products combine quantities of one ordering, and getters/setters named for an ordering return/receive it")
+    n_conv = n_comb = n_end = 0
+    n_fn = 0
+    for m in idx.modules.values():
+        if not (m.name.startswith("piquasso._simulators.gaussian") or m.name in ("piquasso._math.decompositions", "piquasso._simulators.simulation_steps")):
+            continue
+        fns = list(m.functions.values())
+        for c in m.classes.values():
+            for nd in c.node.body:
+                if isinstance(nd, (ast.FunctionDef, ast.AsyncFunctionDef)):
+                    # property getters and setters share a name: every definition is analysed, not only the last one
+                    fns.append(FuncInfo(nd.name, f"{c.qualname}.{nd.name}", m, nd, c))
+        for fn in fns:
+            n_fn += 1
+            bt = BasisTyping(fn)
+            bt.run()
+            n_conv += bt.n_conversions
+            n_comb += bt.n_combinations
+            n_end += bt.n_endpoints
+            for iss in bt.issues:
+                key = f"{fn.qualname}|{iss.kind}|{norm(iss.node).split(chr(10))[0][:50]}"
+                ctx.violation("C14d", key, fn.file, iss.node.lineno,
+                              iss.message + ": the xpxp and the xxpp representation no longer describe the same state (entries of different "
+                              "quadratures are added or compared)", norm(iss.node).split("\n")[0][:100])
+    ctx.obligation("C14d", "gaussian package|orderings-consistent", not any(f.rule == "C14d" for f in ctx.findings),
+                   functions=n_fn, conversions=n_conv, combinations=n_comb, endpoints=n_end)
+    ctx.require_floor("applications of the ordering index maps checked", n_conv, 6)
+    ctx.require_floor("ordering-named getter returns / setter stores checked", n_end, 8)
